@@ -285,8 +285,10 @@ func buildReverseSearchers(
 		} else {
 			// Issue #99: Extract prefix literals for fast path verification
 			// For patterns like (?m)^/.*\.php, prefix is "/" - enables O(1) verification
-			prefixLiterals := extractor.ExtractPrefixes(re)
-			searcher.SetPrefixLiterals(prefixLiterals)
+			// The fast path is exact only for (?m)^literal.*literal.
+			if lit, ok := multilineLiteralDotStarLiteral(re); ok {
+				searcher.SetPrefixLiterals(literal.NewSeq(literal.NewLiteral(lit, true)))
+			}
 			result.multilineReverseSuffixSearcher = searcher
 		}
 	}
